@@ -985,16 +985,9 @@ func (vc *VC) backEdgeChecks(hb *ssa.BasicBlock, edge Term) {
 		var reaches []Term
 		for _, blk := range vc.ownLoopBlocks(h) {
 			for _, ins := range blk.Instrs {
-				if c, ok := ins.(*ssa.Call); ok {
-					if bi, ok := c.Call.Value.(*ssa.Builtin); ok && bi.Name() == bc.Fn {
-						if r, ok := vc.reach[blk.Index]; ok {
-							reaches = append(reaches, r)
-						}
-					}
-					if g := c.Call.StaticCallee(); g != nil && (vc.e.fname(g) == bc.Fn || libName(g) == bc.Fn) {
-						if r, ok := vc.reach[blk.Index]; ok {
-							reaches = append(reaches, r)
-						}
+				if vc.matchesBodyCall(ins, bc.Fn) {
+					if r, ok := vc.reach[blk.Index]; ok {
+						reaches = append(reaches, r)
 					}
 				}
 			}
@@ -1016,7 +1009,11 @@ func (vc *VC) backEdgeChecks(hb *ssa.BasicBlock, edge Term) {
 		if len(bc.Props) > 0 {
 			pr = bc.Props
 		}
-		vc.checkG("body-calls", token.NoPos, "loop "+ls.Key+": "+bc.Text, edge, Imp(wfs, Eq(Or(reaches...), t.t)), pr)
+		kind := "body-calls"
+		if strings.HasPrefix(bc.Fn, "store:") {
+			kind = "body-stores"
+		}
+		vc.checkG(kind, token.NoPos, "loop "+ls.Key+": "+bc.Text, edge, Imp(wfs, Eq(Or(reaches...), t.t)), pr)
 	}
 	for _, inv := range ls.Invariants {
 		ce := vc.envAt(hb, vc.cur, sub)
@@ -1321,4 +1318,39 @@ func (vc *VC) iterationNames(hb *ssa.BasicBlock, ce *cenv) {
 			}
 		}
 	}
+}
+
+// matchesBodyCall: ins is a call of the function (or builtin) named fn, or, for fn = "store:T.f",
+// a store to field f of a struct of type T.
+func (vc *VC) matchesBodyCall(ins ssa.Instruction, fn string) bool {
+	if strings.HasPrefix(fn, "store:") {
+		st, ok := ins.(*ssa.Store)
+		if !ok {
+			return false
+		}
+		fa, ok := st.Addr.(*ssa.FieldAddr)
+		if !ok {
+			return false
+		}
+		pt, ok := fa.X.Type().Underlying().(*types.Pointer)
+		if !ok {
+			return false
+		}
+		stt, ok := pt.Elem().Underlying().(*types.Struct)
+		if !ok {
+			return false
+		}
+		return vc.e.typeName(pt.Elem())+"."+stt.Field(fa.Field).Name() == fn[len("store:"):]
+	}
+	c, ok := ins.(*ssa.Call)
+	if !ok {
+		return false
+	}
+	if bi, ok := c.Call.Value.(*ssa.Builtin); ok && bi.Name() == fn {
+		return true
+	}
+	if g := c.Call.StaticCallee(); g != nil && (vc.e.fname(g) == fn || libName(g) == fn) {
+		return true
+	}
+	return false
 }
